@@ -221,8 +221,8 @@ pub fn run_c01(ctx: &Ctx) {
     ctx.assume("search, not proof: absence of a satisfying witness among explored assignments is evidence only");
     let cfg = DrvCfg {
         id: "C01",
-        n_bases: ctx.tier.pick(64, 3000),
-        sweep_every: ctx.tier.pick(160, 40),
+        n_bases: ctx.tier.pick(640, 6000),
+        sweep_every: ctx.tier.pick(400, 40),
         confirm_control_every: 8,
         validate_unsat_every: 40,
         dummy_share: (1, 4),
@@ -361,8 +361,8 @@ pub fn run_c02(ctx: &Ctx) {
     ctx.assume("Poseidon2 permutation of plonky2 is the trusted base of the reference hashes");
     let cfg = DrvCfg {
         id: "C02",
-        n_bases: ctx.tier.pick(160, 6000),
-        sweep_every: ctx.tier.pick(150, 40),
+        n_bases: ctx.tier.pick(1280, 12000),
+        sweep_every: ctx.tier.pick(400, 40),
         confirm_control_every: 16,
         validate_unsat_every: 40,
         dummy_share: (0, 1),
@@ -597,8 +597,8 @@ pub fn run_c03(ctx: &Ctx) {
     ctx.assume("Poseidon2 permutation of plonky2 is the trusted base of the reference hashes");
     let cfg = DrvCfg {
         id: "C03",
-        n_bases: ctx.tier.pick(170, 6000),
-        sweep_every: ctx.tier.pick(200, 50),
+        n_bases: ctx.tier.pick(1280, 12000),
+        sweep_every: ctx.tier.pick(500, 50),
         confirm_control_every: 17,
         validate_unsat_every: 40,
         dummy_share: (0, 1),
@@ -778,8 +778,8 @@ pub fn run_c04(ctx: &Ctx) {
     ctx.assume("Poseidon2 permutation of plonky2 is the trusted base of the reference hashes");
     let cfg = DrvCfg {
         id: "C04",
-        n_bases: ctx.tier.pick(170, 6000),
-        sweep_every: ctx.tier.pick(100, 30),
+        n_bases: ctx.tier.pick(1280, 12000),
+        sweep_every: ctx.tier.pick(300, 30),
         confirm_control_every: 17,
         validate_unsat_every: 40,
         dummy_share: (1, 3),
